@@ -34,7 +34,7 @@ func init() {
 				passThrough(c, "C05")
 				copySourcesAreWritten(c, "crypto", "crypto/hkdf", "crypto/chacha20poly1305", "crypto/curve25519", "hap/pair", "hap")
 			}},
-			{ID: "C05-R4", Title: "plaintext only from a checked open; the first failure is fatal", Decides: "nothing but an unmodified prefix is released; error no later than the first altered frame", Floor: 4, Run: func(c *core.Ctx) { c05r4(c); sessionOutlivesReadErrors(c); polarityEverywhere(c, "C05") }},
+			{ID: "C05-R4", Title: "plaintext only from a checked open; the first failure is fatal; consumed frames leave only through the open", Decides: "nothing but an unmodified prefix is released; error no later than the first altered frame", Floor: 4, Run: func(c *core.Ctx) { c05r4(c); framesLeaveOnlyThroughOpen(c); sessionOutlivesReadErrors(c); polarityEverywhere(c, "C05") }},
 			{ID: "C05-R5", Title: "tag width", Decides: "full 16-byte tag is verified", Floor: 2, Run: c05r5},
 			{ID: "C05-R6", Title: "key derivation and AEAD wrappers are stateless; the ephemeral keys behind a session key are fresh per connection (shared with C03-R5)", Decides: "direction keys differ; a tag check is never skipped; frames recorded on one connection are not accepted on another", Floor: 4, Run: c05r6},
 		},
